@@ -319,7 +319,7 @@ def strategy():
         st.sampled_from([0, 0, 1, 2]),
         st.lists(variant, min_size=1, max_size=4),
         st.one_of(st.just([]), extractor_specs()),
-        P.programs(max_nodes=12, max_depth=5, remote_weight=2, min_depth=2),
+        P.programs(max_nodes=12, max_depth=5, remote_weight=2, min_depth=2, status_fields=True),
     )
 
 
